@@ -37,7 +37,7 @@ def _silence():
 
 
 def run_session(files: dict, flags, *, keep_dir: str | None = None, config: dict | None = None,
-                per_test_reset: bool = True, apply_flags=None) -> dict:
+                per_test_reset: bool = True, apply_flags=None, no_black: bool = False) -> dict:
     """Run one in-process session.
 
     files  : {relative name: text}; ``*.py`` files in the top directory are executed in sorted order
@@ -61,6 +61,13 @@ def run_session(files: dict, flags, *, keep_dir: str | None = None, config: dict
     tmp = Path(keep_dir or tempfile.mkdtemp(prefix="verif_inl_"))
     old_cfg = _config.config
     loaded: list = []
+    saved_black = None
+    if no_black:
+        # "black is not installed": the import inside inline_snapshot._format fails
+        saved_black = {k: v for k, v in sys.modules.items() if k == "black" or k.startswith("black.")}
+        for k in saved_black:
+            del sys.modules[k]
+        sys.modules["black"] = None
     try:
         for name, content in files.items():
             p = tmp / name
@@ -145,6 +152,9 @@ def run_session(files: dict, flags, *, keep_dir: str | None = None, config: dict
         return obs
     finally:
         _config.config = old_cfg
+        if saved_black is not None:
+            sys.modules.pop("black", None)
+            sys.modules.update(saved_black)
         for name in loaded:
             sys.modules.pop(name, None)
         if keep_dir is None:
